@@ -52,6 +52,13 @@ class Opaque:
         return '<opaque %s>' % self.what
 
 
+class StrChar:
+    """one character of a constant string selected by a (possibly symbolic) index"""
+
+    def __init__(self, s, idx):
+        self.s = s; self.idx = idx
+
+
 class SymSeq:
     """an abstract Python list used only through `x in seq` and `seq.append(x)` (Wire.prepared seen
     from inside Wire.prepare): membership is havoc, appends are recorded for the postcondition"""
@@ -262,6 +269,10 @@ class Executor:
         return self.subscript(base, idx, st, n)
 
     def subscript(self, base, idx, st, n=None):
+        if isinstance(base, str):
+            idx = ir.as_int(idx)
+            self.oblige('index_in_range', st, ir.band_(ir.ge(idx, -len(base)), ir.lt(idx, len(base))), n, 'string index')
+            return StrChar(base, idx)
         if isinstance(base, tuple):
             idx = ir.as_int(idx)
             if not ir.is_const(idx): raise Unsupported('symbolic index into a tuple')
@@ -817,6 +828,11 @@ def _b_len(ex, st, n, x):
 
 
 def _b_ord(ex, st, n, c):
+    if isinstance(c, StrChar):
+        r = ir.const(ord(c.s[-1]))
+        for j in range(len(c.s) - 2, -1, -1):
+            r = ir.ite(ir.eq(c.idx, j), ord(c.s[j]), r)
+        return r
     if isinstance(c, str) and len(c) == 1: return ir.const(ord(c))
     raise Unsupported('ord of non-constant')
 
